@@ -793,8 +793,107 @@ def c14_item(res, item):
             c14_history(res, rng, kind)
 
 
+def c14_line_interleave(res, rng):
+    """Interleavings at the granularity of source lines, made deterministic.  Call A runs under sys.settrace; when its k-th line event
+    inside the library fires, a complete call B on the SAME model (other rating objects) is executed right there — what a second thread
+    pre-empting A at that line would do.  For every ordered pair of the four operations: A is first traced alone to list its line events;
+    then, for every event that lies in the shared helper modules (weng_lin/common.py, models/common.py — where module-level state would
+    live) and for a sample of the others, the pair is replayed from FRESH module-level state (the helper modules are re-initialised with
+    importlib.reload, so first-use paths — tables being built, lazy initialisation — are pre-empted too) with B at that event.
+    Interleaved results must be bit-identical to the two calls made one after the other."""
+    import sys as _sys, importlib
+    import openskill.models.common as mcommon
+    repo_prefix = os.path.realpath(core.REPO) + os.sep
+    ops = ("predict_draw", "predict_rank", "rate", "predict_win")
+    pairs = [(a, b) for a in ops for b in ops]
+    n_pairs = size(res, 16, 64)
+    cap = size(res, 40, 120)
+
+    def fresh_state():
+        for m_ in (mcommon, core.wl_common):
+            try:
+                importlib.reload(m_)
+            except Exception:  # noqa: BLE001
+                pass
+
+    def lobby(n_players, seed_):
+        r_ = random.Random(seed_)
+        nt = r_.randint(2, 4)
+        sizes = [1] * nt
+        for _ in range(max(0, n_players - nt)):
+            sizes[r_.randrange(nt)] += 1
+        return [[(r_.gauss(25, 6), r_.uniform(1.5, 8)) for _ in range(sz)] for sz in sizes]
+
+    def run(mdl, op, vals):
+        teams = [[mdl.rating(mu=m, sigma=s_) for (m, s_) in t] for t in vals]
+        out = getattr(mdl, op)(teams)
+        if op == "rate":
+            return [[(p.mu, p.sigma) for p in t] for t in out]
+        return out
+
+    def traced(mdl, op, vals, at, inner):
+        st = {"n": 0, "events": [], "b": None, "err": None}
+
+        def tracer(frame, event, arg):
+            if not frame.f_code.co_filename.startswith(repo_prefix):
+                return None
+            if event == "line":
+                if at is None:
+                    st["events"].append(frame.f_code.co_filename)
+                elif st["n"] == at:
+                    try:
+                        st["b"] = inner()
+                    except Exception as e:  # noqa: BLE001
+                        st["err"] = e
+                st["n"] += 1
+            return tracer
+        old = _sys.gettrace()
+        _sys.settrace(tracer)
+        try:
+            out = run(mdl, op, vals)
+        finally:
+            _sys.settrace(old)
+        return out, st
+    try:
+        for it in range(n_pairs):
+            kind = KINDS[it % 5]
+            a_op, b_op = pairs[it % len(pairs)]
+            na = rng.randint(5, 14)
+            va, vb = lobby(na, res.seed * 7919 + it), lobby(max(2, na - rng.randint(1, 2)), res.seed * 104729 + it)
+            fresh_state()
+            ref_model = MODEL_CLS[kind]()
+            sa, st0 = traced(ref_model, a_op, va, None, None)
+            sb = run(ref_model, b_op, vb)
+            ev = st0["events"]
+            shared_ev = [k_ for k_, f_ in enumerate(ev) if f_.endswith(os.sep + "common.py")]
+            others = [k_ for k_, f_ in enumerate(ev) if not f_.endswith(os.sep + "common.py")]
+            ks = shared_ev[:: max(1, len(shared_ev) // cap)][:cap] + rng.sample(others, min(8, len(others)))
+            for k_ in ks:
+                fresh_state()
+                model = MODEL_CLS[kind]()
+                try:
+                    ra, st = traced(model, a_op, va, k_, lambda: run(model, b_op, vb))
+                except Exception as e:  # noqa: BLE001
+                    res.fail("property", "C14: %s.%s raised %s when %s ran on the same model at its line event %d" % (kind, a_op, type(e).__name__, b_op, k_),
+                             dict(type="c14line", kind=kind)); break
+                res.count("line_interleaved_calls")
+                if st["err"] is not None:
+                    res.fail("property", "C14: %s.%s, run while %s was in progress on the same model (its line event %d, in %s), raised %s" % (
+                        kind, b_op, a_op, k_, os.path.basename(ev[k_]), type(st["err"]).__name__), dict(type="c14line", kind=kind)); break
+                if ra != sa or st["b"] != sb:
+                    res.fail("property", "C14: %s: %s pre-empted at its line event %d (in %s) by %s on the same model: interleaved results %r / %r, one after the other %r / %r" % (
+                        kind, a_op, k_, os.path.basename(ev[k_]), b_op, ra, st["b"], sa, sb), dict(type="c14line", kind=kind, a=a_op, b=b_op, at=k_, va=va, vb=vb))
+                    break
+            res.count("line_interleaved_pairs")
+            if len(res.failures) > 5:
+                return
+    finally:
+        fresh_state()
+
+
 def c14(res):
     rng = random.Random(res.seed)
+    c14_line_interleave(res, rng)
     for rep in range(size(res, 2, 8)):
         for kind in KINDS:
             res.case(dict(kind=kind, rep=rep, what="history"))
